@@ -23,13 +23,17 @@
         reversed and strand-negated iff its Pretext orientation is `−`) as ONE contiguous block of rows of ONE scaffold of
         the output assembly `C09.routeKey tag haplotype`; any output fragment sharing a contig base with it lies in that
         same scaffold of that same assembly.
+    K2b `deep_row_survives`     the complement for SHORT pieces (whose core may be empty): a contig that shares `≥ err`
+        (and `≥ 1`) bases with a piece and reaches deeper than `M` from BOTH ends of the piece is never taken away from
+        it — neither guard can fire: (a) / `trim_large_overhangs` need an overlap `< err`, (b) would have to move the
+        result's end past the contig, more than `M` beyond the bait's end (`SafeKept`).
     K4  `deep_cut_exact_any_map`, `deep_cut_exact_any_map_output`   a piece boundary `c | c+1` falling deeper than `M`
-        inside a contig, between two pieces whose cores reach into the contig (each piece has ≥ 2·M bases on its side of
-        the cut), splits the contig exactly at the designated coordinate: the first piece's result ends with a part of the
+        inside a contig, between two non-empty pieces of at least `err` bases each, splits the contig exactly at the
+        designated coordinate: the first piece's result ends with a part of the
         contig, the second's begins with one, the results end/begin at `c` / `c+1`, and the two parts meet exactly there
         (`deep_cut_position`'s arithmetic: forward contig `…-(stop − (ce − c))`, `(that+1)-…`; reverse contig mirrored).
         This is the FULL statement asked for ("two fragments meeting exactly at the designated coordinate"), not the
-        weaker one — obtained without analysing `cut_fragments`: both parts survive (K2), two stored rows never share a
+        weaker one — obtained without analysing `cut_fragments`: both parts survive (K2b), two stored rows never share a
         base (C01), so both were shortened, and a shortened end lies at the bait coordinate (K1, `EdgeOK`).
 
   HYPOTHESES of K2–K4 (all decidable; the examples at the end discharge them by `decide`):
@@ -48,10 +52,17 @@
           core of one piece is taken away from it by the sub-texel rule and handed to the other piece; `remap` succeeds.
           `overlapping_baits_lose_core`.  (Outside C02's quantifier — the pieces of a Pretext map tile their scaffolds —
           so not a defect of the code with respect to C02; it is the reason for the hypothesis `PtxDisjoint`.)
-    F-K4  K4 needs the two pieces to be longer than `2·M` on their side of the cut (else their cores do not reach the
-          contig and K2 says nothing); the task's wording omits this.  Not shown false without it (a piece that loses its
-          part of a cut contig makes the cut QC fail, so `remap` would not succeed) — see the note at K4.
+    F-K4  K4 carries a side condition the task's wording omits: each of the two pieces has at least `err` bases.  A piece
+          shorter than `err` lying inside the contig is emptied by `trim_large_overhangs` right after the lookup; the
+          remaining holders then do not tile the contig, `qc_sub_fragments` raises and `remap` does not complete — so the
+          statement without the side condition is presumably still true (vacuously in that case), but proving that
+          needs the converse analysis of the cut QC, which is not done here.
   No statement about the unchanged code was found false.
+
+  Helper files (all new): `Proofs/C02KPos` (positions, geometry of the discards), `C02KOps` (K1: `KInv`, `GStep`),
+  `C02KRows` (row form), `C02KRes` (`Slice`, `MeetsBait`, sticking out), `C02KSafe` (lookup covers the bait, deep rows),
+  `C02KBuild` (lookup stage), `C02KResolve` (resolver), `C02KCut` (cutting, whole pipeline), `C02KAdded`, `C02KOut`,
+  `C02KDeep` (K4).
 -/
 import AgpTpf.Proofs.C02KDeep
 import AgpTpf.Properties.C02
@@ -164,6 +175,17 @@ theorem rowKept_iff (o : OverlapResult) (f : Fragment) (xs : Int) (L : List Row)
       o.start + rowsLength L = xs + 1 + dl ∧ o.stop - rowsLength R = xs + f.length - dr :=
   ⟨fun h => ⟨h.rows, h.short, h.dl0, h.dr0, h.inner, h.left, h.right, h.cutL, h.cutR, h.pos, h.posR⟩,
    fun ⟨a, b, c, d, e, f, g, h, i, j, k⟩ => ⟨a, b, c, d, e, f, g, h, i, j, k⟩⟩
+
+/-- `SafeKept src err M o`: for every contig row `f` of `src` (at scaffold positions `|X|+1 … |X|+|f|`) sharing `≥ err`
+    and `≥ 1` bases with the bait and reaching deeper than `M` from both ends of the bait, the part of `f` inside the
+    bait lies inside `[o.start, o.stop]` -/
+theorem safeKept_iff (src : List Row) (err M : Int) (o : OverlapResult) :
+    SafeKept src err M o ↔
+      ∀ X f Y, src = X ++ .frag f :: Y →
+        err ≤ min (rowsLength X + f.length) o.bait.stop - max (rowsLength X + 1) o.bait.start + 1 →
+        1 ≤ min (rowsLength X + f.length) o.bait.stop - max (rowsLength X + 1) o.bait.start + 1 →
+        o.bait.start + M ≤ rowsLength X + f.length → rowsLength X + 1 ≤ o.bait.stop - M →
+        o.start ≤ max (rowsLength X + 1) o.bait.start ∧ min (rowsLength X + f.length) o.bait.stop ≤ o.stop := Iff.rfl
 
 /-! ## K1 — one result, any sequence of guarded operations -/
 
@@ -301,7 +323,7 @@ theorem remap_keeps_core (input ptx : List Scaffold) (prefix_ : Str) (joinGap : 
   refine ⟨by simpa using congrArg List.length hview, ?_⟩
   intro sid c hc
   obtain ⟨r, hr, _, _, _, hb⟩ := hpiece sid c hc
-  obtain ⟨sc, o0, hsc, hname, hl, hK⟩ := hcore r (List.mem_of_getElem? hr)
+  obtain ⟨sc, o0, hsc, hname, hl, hK, _⟩ := hcore r (List.mem_of_getElem? hr)
   rw [hb] at hname hl hK
   have hlen := hnn sc hsc
   refine ⟨r, sc, o0, hr, hb, hsc, hname, hl, hK, ?_, ?_⟩
@@ -311,6 +333,23 @@ theorem remap_keeps_core (input ptx : List Scaffold) (prefix_ : Str) (joinGap : 
     have hcg : ContigAt sc.rows x := (contigAt_iff_span hlen x).2 ⟨X, f, Y, hs, hx1, hx2⟩
     obtain ⟨c1, c2⟩ := lookup_covers_bait hlen hl hcg (by omega) (by omega)
     exact core_row_kept hlen hK hs hx1 hx2 c1 c2 h1 h2
+
+/-- **K2b — deep rows survive.**  Same hypotheses.  `r` a stored result, `sc` the input scaffold its bait `p` names, `f` a
+    contig row of `sc` at scaffold positions `[fs, fe] = [|X|+1, |X|+|f|]` that shares at least `err` and at least one
+    base with `p` and reaches deeper than `3·err` from both ends of `p` (`p.start + 3·err ≤ fe`, `fs ≤ p.stop − 3·err`).
+    Then the part of `f` inside the bait is inside `[r.o.start, r.o.stop]`, and `f` is still a row of `r.o`, unshortened
+    unless terminal and then cut exactly at the bait coordinate (`RowKept`).  No condition on the length of the piece. -/
+theorem deep_row_survives (input ptx : List Scaffold) (prefix_ : Str) (joinGap : Option Gap) (err : Int) (b : Build)
+    (hwf : WFInput input) (hnn : InputNonNeg input) (hdis : PtxDisjoint ptx) (herr : 0 ≤ err)
+    (h : remapToInput input ptx prefix_ joinGap err = .ok b) {r : Res} (hr : r ∈ b.store)
+    {sc : Scaffold} (hsc : sc ∈ input) (hn : sc.name = r.o.bait.name)
+    {X Y : List Row} {f : Fragment} (hs : sc.rows = X ++ .frag f :: Y)
+    (h1 : err ≤ min (rowsLength X + f.length) r.o.bait.stop - max (rowsLength X + 1) r.o.bait.start + 1)
+    (h2 : 1 ≤ min (rowsLength X + f.length) r.o.bait.stop - max (rowsLength X + 1) r.o.bait.start + 1)
+    (h3 : r.o.bait.start + 3 * err ≤ rowsLength X + f.length) (h4 : rowsLength X + 1 ≤ r.o.bait.stop - 3 * err) :
+    (r.o.start ≤ max (rowsLength X + 1) r.o.bait.start ∧ min (rowsLength X + f.length) r.o.bait.stop ≤ r.o.stop) ∧
+    ∃ L row R dl dr, RowKept r.o f (rowsLength X) L row R dl dr :=
+  deep_row_kept input ptx prefix_ joinGap err b hwf hnn hdis herr h hr hsc hn hs h1 h2 h3 h4
 
 /-! ### K2: the finding F-K2 — overlapping baits -/
 
@@ -413,8 +452,8 @@ theorem remap_core_in_one_scaffold (input ptx : List Scaffold) (prefix_ : Str) (
 /-- **K4 (stored results).**  Hypotheses of K2.  Two stored results `r1 = b.store[i]`, `r2 = b.store[j]`, `i ≠ j`, whose
     baits lie on the same input scaffold `sc` and meet at `c | c+1` (`r1.bait.stop = c`, `r2.bait.start = c+1`); the
     boundary falls inside the contig row `f` of `sc` (`sc.rows = X ++ f :: Y`, scaffold span `[cs, ce] =
-    [|X|+1, |X|+|f|]`) deeper than the margin: `cs + 3·err < c < ce − 3·err`; each piece has at least `2·(3·err)` bases on
-    its side of the cut (so that its core reaches into `f`).  Then `r1.o.rows` ends with a part `g1` of `f`,
+    [|X|+1, |X|+|f|]`) deeper than the margin: `cs + 3·err < c < ce − 3·err`; each piece is non-empty and has at least `err`
+    bases.  Then `r1.o.rows` ends with a part `g1` of `f`,
     `r2.o.rows` begins with a part `g2` of `f`, `r1.o.stop = c`, `r2.o.start = c+1`, and the parts meet exactly at the
     designated coordinate: forward contig — `g1.stop = f.stop − (ce − c)`, `g2.start = g1.stop + 1`; reverse contig —
     `g1.start = f.start + (ce − c)`, `g2.stop + 1 = g1.start`. -/
@@ -426,19 +465,18 @@ theorem deep_cut_exact_any_map (input ptx : List Scaffold) (prefix_ : Str) (join
     {sc : Scaffold} (hsc : sc ∈ input) (hn1 : sc.name = r1.o.bait.name) (hn2 : sc.name = r2.o.bait.name)
     {X Y : List Row} {f : Fragment} (hs : sc.rows = X ++ .frag f :: Y)
     (hd1 : rowsLength X + 1 + 3 * err < c) (hd2 : c < rowsLength X + f.length - 3 * err)
-    (hl1 : r1.o.bait.start + 2 * (3 * err) ≤ c) (hl2 : c + 1 + 2 * (3 * err) ≤ r2.o.bait.stop) :
+    (hp1 : r1.o.bait.start ≤ c) (hl1 : r1.o.bait.start + err ≤ c + 1)
+    (hp2 : c + 1 ≤ r2.o.bait.stop) (hl2 : c + err ≤ r2.o.bait.stop) :
     ∃ L g1 g2 R, r1.o.rows = L ++ [.frag g1] ∧ r2.o.rows = .frag g2 :: R ∧ r1.o.stop = c ∧ r2.o.start = c + 1 ∧
       g1.name = f.name ∧ g2.name = f.name ∧ g1.strand = f.strand ∧ g2.strand = f.strand ∧
       (if f.strand = 1 then g1.stop = f.stop - (rowsLength X + f.length - c) ∧ g2.start = g1.stop + 1
        else g1.start = f.start + (rowsLength X + f.length - c) ∧ g2.stop + 1 = g1.start) :=
-  deep_cut_rows input ptx prefix_ joinGap err b hwf hnn hdis herr h hne hi hj hc1 hc2 hsc hn1 hn2 hs hd1 hd2 hl1 hl2
+  deep_cut_rows input ptx prefix_ joinGap err b hwf hnn hdis herr h hne hi hj hc1 hc2 hsc hn1 hn2 hs hd1 hd2 hp1 hl1 hp2 hl2
 
 /-- **K4 (output).**  … and when `remap` completes, the output contains two fragments `h1`, `h2` of that contig — in
     scaffolds of the assemblies the two pieces are routed to — meeting exactly at the designated coordinate.
-    NOTE (F-K4): the two length hypotheses `hl1`, `hl2` are not in the task's wording of K4.  Without them the cores of
-    the pieces do not reach into the contig and K2 gives nothing; the statement may still be true (a piece losing its
-    part of a cut contig makes the pieces no longer tile it, `qc_sub_fragments` raises and `remap` does not complete),
-    but that needs the converse analysis of `cut_fragments`' QC, which is not done here. -/
+    NOTE (F-K4): the side conditions "each piece is non-empty and has at least `err` bases" are not in the task's wording
+    of K4; see the header. -/
 theorem deep_cut_exact_any_map_output (input ptx : List Scaffold) (prefix_ : Str) (joinGap : Option Gap) (err : Int)
     (outs : List OutAsm) (stats : Stats)
     (hwf : WFInput input) (hnn : InputNonNeg input) (hdis : PtxDisjoint ptx) (herr : 0 ≤ err)
@@ -448,7 +486,7 @@ theorem deep_cut_exact_any_map_output (input ptx : List Scaffold) (prefix_ : Str
         i ≠ j → b.store[i]? = some r1 → b.store[j]? = some r2 → r1.o.bait.stop = c → r2.o.bait.start = c + 1 →
         sc ∈ input → sc.name = r1.o.bait.name → sc.name = r2.o.bait.name → sc.rows = X ++ .frag f :: Y →
         rowsLength X + 1 + 3 * err < c → c < rowsLength X + f.length - 3 * err →
-        r1.o.bait.start + 2 * (3 * err) ≤ c → c + 1 + 2 * (3 * err) ≤ r2.o.bait.stop →
+        r1.o.bait.start ≤ c → r1.o.bait.start + err ≤ c + 1 → c + 1 ≤ r2.o.bait.stop → c + err ≤ r2.o.bait.stop →
         ∃ a1 ∈ outs, ∃ s1 ∈ a1.scaffolds, ∃ a2 ∈ outs, ∃ s2 ∈ a2.scaffolds, ∃ h1 h2,
           a1.key = C09.routeKey r1.o.tag r1.o.haplotype ∧ a2.key = C09.routeKey r2.o.tag r2.o.haplotype ∧
           Row.frag h1 ∈ s1.rows ∧ Row.frag h2 ∈ s2.rows ∧ h1.name = f.name ∧ h2.name = f.name ∧
@@ -457,9 +495,9 @@ theorem deep_cut_exact_any_map_output (input ptx : List Scaffold) (prefix_ : Str
   obtain ⟨b, hb, _, hroute, _, _⟩ := C09.remap_routes_store input ptx prefix_ joinGap err outs stats h
   refine ⟨b, hb, ?_⟩
   have hadd := remapToInput_addedOK input ptx prefix_ joinGap err b hb
-  intro i j r1 r2 c sc X Y f hne hi hj hc1 hc2 hsc hn1 hn2 hs hd1 hd2 hl1 hl2
+  intro i j r1 r2 c sc X Y f hne hi hj hc1 hc2 hsc hn1 hn2 hs hd1 hd2 hp1 hl1 hp2 hl2
   obtain ⟨L, g1, g2, R, e1, e2, _, _, n1, n2, _, _, hco⟩ :=
-    deep_cut_rows input ptx prefix_ joinGap err b hwf hnn hdis herr hb hne hi hj hc1 hc2 hsc hn1 hn2 hs hd1 hd2 hl1 hl2
+    deep_cut_rows input ptx prefix_ joinGap err b hwf hnn hdis herr hb hne hi hj hc1 hc2 hsc hn1 hn2 hs hd1 hd2 hp1 hl1 hp2 hl2
   have out : ∀ (r : Res) (g : Fragment), r ∈ b.store → Row.frag g ∈ r.o.rows →
       ∃ a ∈ outs, ∃ s ∈ a.scaffolds, ∃ g', a.key = C09.routeKey r.o.tag r.o.haplotype ∧ Row.frag g' ∈ s.rows ∧
         g'.keyTuple = g.keyTuple := by
@@ -556,18 +594,52 @@ example : ∃ b r1 r2, remapToInput kinp kptx "SUPER_".toList (some kjg) 5 = .ok
       deep_cut_exact_any_map kinp kptx _ _ 5 b (by decide) (by decide) (by decide) (by decide) hr
         (i := 4) (j := 0) (by decide) h1 h2 (c := 48) e1.2.2 (by rw [e2.2.1]; decide) (sc := ksA) (by decide) e1.1.symm e2.1.symm
         (X := []) (Y := [.gap kg10, .frag ka2, .gap kg10, .frag ka3]) (f := ka1) rfl (by decide) (by decide)
-        (by rw [e1.2.1]; decide) (by rw [e2.2.2]; decide)
+        (by rw [e1.2.1]; decide) (by rw [e1.2.1]; decide) (by rw [e2.2.2]; decide) (by rw [e2.2.2]; decide)
     rw [if_pos (by decide)] at a9
     have e : ka1.stop - (rowsLength [] + ka1.length - 48) = 48 := by decide
     rw [e] at a9
     exact ⟨b, r1, r2, rfl, h1, h2, L, g1, g2, R, a1, a2, a3, a4, a5, a6, a9.1, by rw [a9.2, a9.1]; decide⟩
 
+set_option synthInstance.maxSize 1024 in
+private theorem kdeep_baits9 :
+    (remapToInput kinp kptx "SUPER_".toList (some kjg) 9).toOption.map kbaits =
+      some [(ksA.name, 49, 150), (ksB.name, 1, 82), (ksB.name, 83, 145), (ksA.name, 151, 240), (ksA.name, 1, 48)] := by
+  decide +kernel
+
+/-- **K2b applied**, `err = 9` (margin 27): the piece `scaffold_1:1-48` is shorter than `2·27`, its core `[28, 21]` is
+    empty and K2 says nothing about it — but the contig a1 (1..100) shares 48 ≥ 9 bases with it and reaches deeper than
+    27 from both of its ends (`1 + 27 ≤ 100`, `1 ≤ 48 − 27`), so it stays: positions 1..48 are inside the result -/
+example : ∃ b r, remapToInput kinp kptx "SUPER_".toList (some kjg) 9 = .ok b ∧ b.store[4]? = some r ∧
+    r.o.start ≤ 1 ∧ 48 ≤ r.o.stop ∧ ∃ L row R dl dr, RowKept r.o ka1 0 L row R dl dr := by
+  have hv := kdeep_baits9
+  cases hr : remapToInput kinp kptx "SUPER_".toList (some kjg) 9 with
+  | error e => rw [hr] at hv; simp [Except.toOption] at hv
+  | ok b =>
+    rw [hr] at hv
+    simp only [Except.toOption, Option.map_some, Option.some.injEq, kbaits] at hv
+    have hv' : b.store.map (fun r => (r.o.bait.name, r.o.bait.start, r.o.bait.stop)) =
+        [(ksA.name, (49 : Int), (150 : Int)), (ksB.name, 1, 82), (ksB.name, 83, 145), (ksA.name, 151, 240),
+          (ksA.name, 1, 48)].map id := by rw [List.map_id]; exact hv
+    obtain ⟨r, h1, e1⟩ := C09.getElem?_of_map_eq _ id _ _ hv' 4 _ rfl
+    simp only [id, Prod.mk.injEq] at e1
+    obtain ⟨⟨q1, q2⟩, hrow⟩ := deep_row_survives kinp kptx _ _ 9 b (by decide) (by decide) (by decide) (by decide) hr
+      (List.mem_of_getElem? h1) (sc := ksA) (by decide) e1.1.symm
+      (X := []) (Y := [.gap kg10, .frag ka2, .gap kg10, .frag ka3]) (f := ka1) rfl
+      (by rw [e1.2.1, e1.2.2]; decide) (by rw [e1.2.1, e1.2.2]; decide) (by rw [e1.2.1]; decide) (by rw [e1.2.2]; decide)
+    rw [e1.2.1] at q1
+    rw [e1.2.2] at q2
+    have c1 : max (rowsLength [] + 1) (1 : Int) = 1 := by decide
+    have c2 : min (rowsLength [] + ka1.length) (48 : Int) = 48 := by decide
+    rw [c1] at q1
+    rw [c2] at q2
+    exact ⟨b, r, rfl, h1, q1, q2, hrow⟩
+
 /-- the instances of K4's numeric hypotheses for the two cuts: a1 at `[cs, ce] = [1, 100]`, `c = 48`, pieces `1..48` and
     `49..150`; a2 (reverse) at `[111, 190]`, `c = 150`, pieces `49..150` and `151..240`; margin 15 -/
-example : (0 + 1 + 3 * 5 < (48 : Int)) ∧ ((48 : Int) < 0 + 100 - 3 * 5) ∧ ((1 : Int) + 2 * (3 * 5) ≤ 48) ∧
-    ((48 : Int) + 1 + 2 * (3 * 5) ≤ 150) := by decide
-example : (110 + 1 + 3 * 5 < (150 : Int)) ∧ ((150 : Int) < 110 + 80 - 3 * 5) ∧ ((49 : Int) + 2 * (3 * 5) ≤ 150) ∧
-    ((150 : Int) + 1 + 2 * (3 * 5) ≤ 240) := by decide
+example : (0 + 1 + 3 * 5 < (48 : Int)) ∧ ((48 : Int) < 0 + 100 - 3 * 5) ∧ ((1 : Int) + 5 ≤ 48 + 1) ∧
+    ((48 : Int) + 5 ≤ 150) := by decide
+example : (110 + 1 + 3 * 5 < (150 : Int)) ∧ ((150 : Int) < 110 + 80 - 3 * 5) ∧ ((49 : Int) + 5 ≤ 150 + 1) ∧
+    ((150 : Int) + 5 ≤ 240) := by decide
 /-- … and what K4 then asserts is what the kernel computed above: forward contig a1: `1-48` | `49-100`
     (`48 = 100 − (100 − 48)`); reverse contig a2: the part at 111..150 is `41-80` (`41 = 1 + (190 − 150)`), the part at
     151..190 is `1-40` (`40 + 1 = 41`) -/
